@@ -27,7 +27,8 @@ def witnesses():
     """findings/C39-*.ndjson: minimal histories of the known findings, replayed every run."""
     trs = []
     for p in sorted(glob.glob(os.path.join(lib.VERIF, "findings", "C39-*.ndjson"))):
-        trs += lib.read_ndjson(p)
+        if not os.path.basename(p).startswith("C39-exact-"):      # those use the account-name vocabulary
+            trs += lib.read_ndjson(p)
     return trs
 
 
@@ -46,7 +47,7 @@ def check(tier):
         dump = pool.submit(lib.dump_transitions, "Privileges", "Privileges_dump.cfg", os.path.join(sc, "dump.ndjson"),
                            workers=2 if quick else 4, timeout=1500)
         # 2. simulated histories of the bounded vocabulary, probe matrix after every step
-        sim_cfg, nsim, depth = ("Privileges_simq.cfg", 30, 8) if quick else ("Privileges_sim.cfg", 500, 12)
+        sim_cfg, nsim, depth = ("Privileges_simq.cfg", 30, 8) if quick else ("Privileges_sim.cfg", 300, 12)
         rs, strs = pc.simulate(sim_cfg, nsim, depth, lib.seed())
         lib.log("[C39] simulate: %d steps %.0fs" % (len(strs), time.time() - t0))
         b = pc.Batch(binp, sc, "c39")
@@ -56,19 +57,31 @@ def check(tier):
         rd, dtrs = dump.result()
         if len(dtrs) < 2000:
             raise lib.Inconclusive("too few transitions dumped: %d" % len(dtrs))
-        dsel = lib.sample(dtrs, 200 if quick else 5000, rnd)
+        dsel = lib.sample(dtrs, 200 if quick else 3000, rnd)
         drep = b.add("dump", dsel, pc.SMALL, rmode="transitions", matrix="every")
         lib.log("[C39] replay dump: %s %.0fs" % (drep["extra"], time.time() - t0))
+        # 3a. thorough: a larger vocabulary (3 users, 2 roles)
+        if not quick:
+            rb, btrs = pc.simulate("Privileges_simbig.cfg", 150, 12, lib.seed() + 1000)
+            brep = b.add("big", btrs, pc.BIG, matrix="every")
+            lib.log("[C39] replay big: %s %.0fs" % (brep["extra"], time.time() - t0))
+        # 3b. account names are exact: the same user name at two hosts, stored state after every step
+        re_, etrs = pc.simulate("Privileges_exact.cfg", 30 if quick else 600, 8 if quick else 12, lib.seed())
+        erep = b.add("exact", etrs, pc.EXACT, matrix="none")
+        lib.log("[C39] replay exact: %s %.0fs" % (erep["extra"], time.time() - t0))
         # 4. witnesses of the known findings
         wtrs = witnesses()
         if wtrs:
             b.add("witness", wtrs, pc.FULL, matrix="every")
+        xtrs = lib.read_ndjson(os.path.join(lib.VERIF, "findings", "C39-exact-account-statements-use-connection-matching.ndjson"))
+        b.add("exact", xtrs, pc.EXACT, matrix="none")
         mms, sts, und = b.validate()
         lib.log("[C39] validated %d lines: %d MM %.0fs" % (len(b.events), len(mms), time.time() - t0))
         sigs = pc.judge("C39", v, b, mms, relevant, per_sig=1 if quick else 2)
         missing = [f["id"] for f in v.findings if f["id"] not in v.known]
         if missing:
             lib.log("[C39] note: known finding(s) %s did not show this run (fixed?)" % missing)
+        forged = pc.forged_selftest(b, mms) if not quick else None
         # 5. the model run
         r = mc.result()
         lib.tlc_ok(r, "Privileges/" + mc_cfg)
@@ -90,13 +103,15 @@ def check(tier):
             "evaluations": rows,
             "distinct_nontrivial": nontrivial,
             "rule": "evaluations = probe outcomes judged by TLC against Allowed (expected allow: %d); non-trivial = a probe (class, object) of one matrix whose outcome differs between at least two users" % allowed,
-            "exhaustive": {"config": mc_cfg, "depth": r.depth, "tlc_wall_s": round(r.wall, 1)},
+            "model_check": {"config": mc_cfg, "depth": r.depth, "tlc_wall_s": round(r.wall, 1)},
             "simulated": {"config": sim_cfg, "histories": srep["extra"]["histories"], "depth": depth,
                           "steps": srep["cases"], "matrices": srep["extra"]["matrices"], "by_action": srep["extra"]["by_action"]},
+            "account_name_exactness": {"config": "Privileges_exact.cfg", "histories": erep["extra"]["histories"], "steps": erep["cases"],
+                                       "by_action": erep["extra"]["by_action"]},
             "transition_dump": {"config": "Privileges_dump.cfg", "states": rd.distinct, "transitions": len(dtrs),
                                 "replayed": len(dsel), "by_action": drep["extra"]["by_action"]},
             "trace_lines_validated": len(b.events), "trace_tlc_wall_s": round(b.tlc_wall, 1),
-            "mismatch_signatures": sigs,
+            "mismatch_signatures": sigs, "forged_trace_selftest": forged,
         }, time.time() - t0, violations=len(v.violations),
             assumptions=["every granted role is active (documented go-mysql-server behaviour; SET ROLE histories are judged against it and the strict reading separately)",
                          "a holder of global SUPER passes every privilege check (documented engine behaviour)",
